@@ -29,7 +29,6 @@ use crate::{
         GateModifier, MemoryReference, Offset, PauliGate, PauliTerm, Qubit, ScalarType, Sharing,
         Vector, WaveformInvocation, WaveformParameters,
     },
-    parser::lexer::Operator,
     token, unexpected_eof,
 };
 
@@ -49,23 +48,21 @@ pub(crate) fn parse_arithmetic_operand<'a>(
 ) -> InternalParserResult<'a, ArithmeticOperand> {
     alt((
         map(
-            tuple((opt(token!(Operator(o))), token!(Float(v)))),
+            tuple((opt(token!(Operator(Operator::Minus))), token!(Float(v)))),
             |(op, v)| {
                 let sign = match op {
                     None => 1f64,
-                    Some(Operator::Minus) => -1f64,
-                    _ => panic!("Implement this error"), // TODO
+                    Some(()) => -1f64,
                 };
                 ArithmeticOperand::LiteralReal(sign * v)
             },
         ),
         map(
-            tuple((opt(token!(Operator(o))), token!(Integer(v)))),
+            tuple((opt(token!(Operator(Operator::Minus))), token!(Integer(v)))),
             |(op, v)| {
                 let sign = match op {
                     None => 1,
-                    Some(Operator::Minus) => -1,
-                    _ => panic!("Implement this error"), // TODO
+                    Some(()) => -1,
                 };
                 ArithmeticOperand::LiteralInteger(sign * (v as i64))
             },
@@ -81,23 +78,21 @@ pub(crate) fn parse_comparison_operand<'a>(
 ) -> InternalParserResult<'a, ComparisonOperand> {
     alt((
         map(
-            tuple((opt(token!(Operator(o))), token!(Float(v)))),
+            tuple((opt(token!(Operator(Operator::Minus))), token!(Float(v)))),
             |(op, v)| {
                 let sign = match op {
                     None => 1f64,
-                    Some(Operator::Minus) => -1f64,
-                    _ => panic!("Implement this error"), // TODO
+                    Some(()) => -1f64,
                 };
                 ComparisonOperand::LiteralReal(sign * v)
             },
         ),
         map(
-            tuple((opt(token!(Operator(o))), token!(Integer(v)))),
+            tuple((opt(token!(Operator(Operator::Minus))), token!(Integer(v)))),
             |(op, v)| {
                 let sign = match op {
                     None => 1,
-                    Some(Operator::Minus) => -1,
-                    _ => panic!("Implement this error"), // TODO
+                    Some(()) => -1,
                 };
                 ComparisonOperand::LiteralInteger(sign * (v as i64))
             },
@@ -112,12 +107,11 @@ pub(crate) fn parse_binary_logic_operand<'a>(
 ) -> InternalParserResult<'a, BinaryOperand> {
     alt((
         map(
-            tuple((opt(token!(Operator(o))), token!(Integer(v)))),
+            tuple((opt(token!(Operator(Operator::Minus))), token!(Integer(v)))),
             |(op, v)| {
                 let sign = match op {
                     None => 1,
-                    Some(Operator::Minus) => -1,
-                    _ => panic!("Implement this error"), // TODO
+                    Some(()) => -1,
                 };
                 BinaryOperand::LiteralInteger(sign * (v as i64))
             },
